@@ -11,7 +11,7 @@ from harness.rank import vector_valued_commutative_factor
 from harness.sexp import dumps, loads_all
 
 PID = 'C02'
-PROPS_MODULE = ['SympdeModel.Props.C02', 'SympdeModel.Props.C02b']
+PROPS_MODULE = ['SympdeModel.Props.C02', 'SympdeModel.Props.C02b', 'SympdeModel.Props.C02c']
 EXTRA_THEOREM_MODULES = ['SympdeModel.Lemmas.Calc']
 RULE = ('random well-typed generic programs (as for C01) plus interface-operator programs, built bottom-up with the real '
         'constructors; every constructor application (operator, already built argument trees) is one case; '
@@ -200,6 +200,8 @@ def fixed_corpus():
     gl = element_of(ScalarFunctionSpace('VLk2', e2.domain, kind='l2'), name='glk2')
     return [
         (e2, 'div', (2 * gl * F,), 'corpus:div(2*g*F) g in L2'),
+        (e2, 'jump', (2 * c,), 'corpus:jump(2*c)'),
+        (e2, 'Dn', (c * Constant('c2'),), 'corpus:Dn(c*c2)'),
         (e2, 'convect', (F, f * G), 'corpus:convect(F,f*G)'),
         (e2, 'convect', (2 * g * F, 3 * c * e2.coords[0] * G + f * H), 'corpus:convect(2*g*F,3*c*x*G+f*H)'),
         (e2, 'div', (2 * f * F,), 'corpus:div(2*f*F)'),
